@@ -854,6 +854,10 @@ func (ctx Ctx) selectExpr(e *ast.SelectorExpr) coq.Expr {
 	// If it is, we need to translate to 'StructName__FuncName varName' instead
 	// of a struct access
 	_, isFuncType := (ctx.typeOf(e)).(*types.Signature)
+	if isFuncType && !ok {
+		ctx.unsupported(e, "method value of non-struct type %v", selectorType)
+		return nil
+	}
 	if isFuncType {
 		m := coq.MethodName(structInfo.name, e.Sel.Name)
 		ctx.dep.addDep(m)
